@@ -18,3 +18,6 @@ func verifEvtMsgs(kind string, msgs []*ProducerMessage, a int) {}
 
 // verifBP identifies a broker producer in hook events.
 func verifBP(bp *brokerProducer) int { return 0 }
+
+// verifID identifies an object in hook events.
+func verifID(p interface{}) int64 { return 0 }
